@@ -472,9 +472,12 @@ let cmd_mtool args =
         | [nm; content] -> (cstr (hex_decode nm), bytes_of (hex_decode content))
         | _ -> failwith "mtool: bad entry") entries in
     let argv = List.map (fun x -> cstr (hex_decode x)) argv in
-    let (code, out) = tool_main_as (cstr (hex_decode prog)) (files_of table) argv in
+    let ((code, out), err) = tool_full (cstr (hex_decode prog)) (files_of table) argv in
     emit (Printf.sprintf "exit %d" (int_of_n code));
-    emit ("stdout " ^ hex_encode (ostr out))
+    emit ("stdout " ^ hex_encode (ostr out));
+    (match err with
+     | Some e -> emit ("stderr " ^ hex_encode (ostr e))
+     | None -> emit "stderr none")
   | _ -> failwith "mtool: bad arguments"
 
 (* mrender <preamble hex> <user text hex> <file name hex> <errsexp hex>*: the model of Error::format_for_contents
